@@ -26,6 +26,8 @@ vspec entries:
     @@ fn <alias|*> <key-glob>           (tags:/ret:/attr:/spec:/body:)
     @@ loop <alias|*> <key-glob> <#n|'label>   (spec:/body:)
     @@ hint <alias> <fn key> before|after let|call <name> [#n]   (body:)  proof block at a statement boundary
+    @@ count <alias> <kind> <name> <identifier> <n>     side condition of a rewrite: the identifier occurs exactly n times in the item
+    (loop entries may carry `iter: <name>`: R16, `for p in e` -> `for p in <name>: e`)
 """
 import fnmatch
 import json
@@ -117,6 +119,16 @@ class Unit:
             elif h[0] == "closure":
                 alias, key = h[1], h[2]
                 rsx.annotate_closure(self.sources[alias], self.edits[alias], self._fn(alias, key), h[3:], e)
+                e.used = True
+            elif h[0] == "count":
+                # @@ count <alias> <kind> <name> <identifier> <n>: side condition of a rewrite - the identifier occurs n times
+                alias, kind, name, ident, want = h[1], h[2], h[3], h[4], int(h[5])
+                it = self._find_item(alias, kind, name)
+                src = self.sources[alias]
+                n = sum(1 for i in range(it.tok_lo, it.tok_hi + 1) if src.toks[i].kind == "ident" and src.toks[i].text == ident)
+                if n != want:
+                    raise Drift("%s: `%s` occurs %d times in %s %s (side condition of a rewrite expects %d)" % (
+                        src.origin, ident, n, kind, name, want))
                 e.used = True
             elif h[0] == "retoken":
                 alias, kind, name = h[1], h[2], h[3]
